@@ -494,7 +494,7 @@ def _violations(obligation, res):
                     bad.append(f"the plan received a non-None response for {choice!r}")
     elif tag.startswith("ensures[a device error is thrown into the plan at the yield"):
         for x in tr:
-            if x[0] == "send" and x[4]:
+            if x[0] == "send" and x[4] and not x[2]:
                 bad.append(f"the handler of a {x[1]!r} message raised, but the plan received a normal response at that yield")
     elif tag.startswith("ensures[returns the uids of the runs it opened") or tag.startswith("ensures[the result carries"):
         starts = [d[1]["uid"] for d in res["docs"] if d[0] == "start"]
@@ -556,7 +556,13 @@ def replay(model, info, art):
     msgs = (info.get("scenario") or {}).get("msgs") or list(MESSAGES)
     res = run_native(decisions, msgs)
     res["failed_pause"] = any(x[0] == "plan-throw" and x[2] == "FailedPause" for x in res["log"])
-    bad = _violations(art.get("obligation", ""), res)
+    obligation = art.get("obligation", "")
+    if obligation.startswith("known-"):
+        # re-confirmation of a listed known finding: judge by the obligation the finding is filed under
+        import os
+        kf = json.load(open(os.path.join(os.path.dirname(os.path.dirname(os.path.abspath(__file__))), "known_findings.json")))["findings"]
+        obligation = next((f["obligation"] for f in kf if f["id"] == obligation[len("known-"):]), obligation)
+    bad = _violations(obligation, res)
     summary = "; ".join(f"{c['call']} -> {c['outcome']}{'(' + type(c['exc']).__name__ + ')' if c['exc'] is not None else ''} state={c['state']}" for c in res["calls"])
     if bad:
         return "confirmed", "; ".join(bad) + f"  [native run: {summary}; diverged: {res['diverged']}]"
